@@ -69,7 +69,7 @@ def run(item_id, spec, repo, workdir):
             proj = os.path.join(d, name + '_proj')
             shutil.rmtree(proj, ignore_errors=True)
             os.makedirs(os.path.join(proj, 'src'))
-            deps = '\n'.join('%s = "%s"' % kv for kv in b['cargo_deps'].items())
+            deps = '\n'.join(('%s = %s' % kv) if str(kv[1]).lstrip().startswith('{') else ('%s = "%s"' % kv) for kv in b['cargo_deps'].items())
             open(os.path.join(proj, 'Cargo.toml'), 'w').write(
                 '[package]\nname = "bounded_harness"\nversion = "0.0.0"\nedition = "2024"\n[workspace]\n[dependencies]\n%s\n[profile.release]\ndebug = false\n' % deps)
             shutil.copy(src_path, os.path.join(proj, 'src', 'main.rs'))
